@@ -1,5 +1,6 @@
 """EXTRAS - specification growth beyond the twenty listed properties (not registered in MANIFEST.json):
-merkle helpers (incl. the in-place change of the caller's list), Script.__add__, bech32_decode_address.
+merkle helpers (incl. the in-place change of the caller's list), Script.__add__, bech32_decode_address,
+the Bip32Path predicates (purpose / coin / chain slots) that select SLIP-132 flavour and network.
 Run: ./check EXTRAS --tier quick"""
 from .. import core
 from ..core import B, T
@@ -33,6 +34,14 @@ def run(ctx):
             a = c11.addr(hrp, ver, bytes(rng.randrange(256) for _ in range(n)))
             inputs.append(("Bech32DecodeAddress", T(a), ("decode-address", hrp, ver)))
             inputs.append(("Bech32DecodeAddress", T(a.upper()), ("decode-address-upper", hrp, ver)))
+    # the path predicates behind version / network selection
+    vals = ["44'", "49'", "84'", "44", "49", "84", "0'", "1'", "0", "1", "2'", "45'", "85'", "2147483647'", "83696968'"]
+    for _ in range(150 if q else 3000):
+        n = rng.randrange(0, 6)
+        toks = [rng.choice(vals) for _ in range(n)]
+        if rng.random() < 0.5 and n >= 1:
+            toks[0] = rng.choice(["44'", "49'", "84'", "44h", "84h"])
+        inputs.append(("PathProps", T("/".join([rng.choice("mM")] + toks)), ("pathprops", n)))
     events = core.build_events(ctx, inputs)
     rj = ctx.validate(MODULE, events, shards=4)
     core.report_rejects(ctx, events, rj)
